@@ -81,6 +81,10 @@ def one_call(term, pt):
     if len(ids) == len(ob['recreates']):
         rec = '[' + '; '.join(f'({i}%nat, [{"; ".join(map(str, names))}], {"true" if flag else "false"})' for i, (names, flag) in zip(ids, ob['recreates'])) + ']'
         ts.append(f'check_dump ({pg.coq_node(term)}) {rec}')
+    # the restored states against the SPECIFICATION the theorems are about (Pickle/State.v: spec), not only against the
+    # machine - outside the domains of the known findings, where the specification and the code knowingly differ
+    if not ob['err'] and not pg.features(term, pt):
+        ts.append(f'check_spec ({pg.coq_node(term)}) {pg.coq_pdict(pt)} {pg.coq_restored(ob["restored"])}')
     return dict(ob, get_log=get_log, heap_before=before, heap_after=after), ts
 
 
